@@ -302,10 +302,31 @@ func procC03(t *Target, tier string, r *Result) {
 // value (the failing statement itself is not observable): a nil nullable
 // embedded pointer somewhere in the value, else the shape class of the case.
 func panicShape(t *Target, s interface{}) string {
+	if nestedNullableEmbeds(t.Spec) {
+		// a nullable embedded message inside a nullable embedded message: its own signature
+		return "nested-nullable-embeds"
+	}
 	if hasNilEmbedded(reflect.ValueOf(s)) {
 		return "nil-embedded-pointer"
 	}
 	return "case:" + t.Tags["class"] + "/" + t.Tags["card"] + "/" + t.Tags["vt"] + "@" + t.Tags["pos"]
+}
+
+// nestedNullableEmbeds tells whether some attribute of the message tree is reached through two or
+// more nullable embedded parents in a row.
+func nestedNullableEmbeds(m *spec.Msg) bool {
+	for _, a := range m.Attrs {
+		n := 0
+		for _, st := range a.Embed {
+			if st.Nullable {
+				n++
+			}
+		}
+		if n >= 2 || (a.Msg != nil && nestedNullableEmbeds(a.Msg)) {
+			return true
+		}
+	}
+	return false
 }
 
 func hasNilEmbedded(v reflect.Value) bool {
@@ -574,7 +595,11 @@ func procC19(t *Target, tier string, r *Result) {
 			r.sample(w)
 			if res.Panicked || len(res.errs()) > 0 {
 				r.outcome(tag + "/to-failed")
-				r.violate("value-not-written", "root", "CopyTo fails for a value of the boundary set: "+res.Panic+diagText(res.errs()), w)
+				sh := "root"
+				if res.Panicked {
+					sh = panicShape(t, s)
+				}
+				r.violate("value-not-written", sh, "CopyTo fails for a value of the boundary set: "+res.Panic+diagText(res.errs()), w)
 				return
 			}
 			fresh := t.New()
@@ -582,7 +607,11 @@ func procC19(t *Target, tier string, r *Result) {
 			r.Transitions++
 			if res.Panicked || len(res.errs()) > 0 {
 				r.outcome(tag + "/from-failed")
-				r.violate("value-not-read-back", "root", "CopyFrom of the written value fails: "+res.Panic+diagText(res.errs()), w)
+				sh := "root"
+				if res.Panicked {
+					sh = panicShape(t, s)
+				}
+				r.violate("value-not-read-back", sh, "CopyFrom of the written value fails: "+res.Panic+diagText(res.errs()), w)
 				return
 			}
 			got := NormS(fresh, excl)
@@ -592,8 +621,11 @@ func procC19(t *Target, tier string, r *Result) {
 			}
 			sh, detail := firstDiff(t.Spec, reflect.ValueOf(s).Elem(), reflect.ValueOf(fresh).Elem(), excl)
 			if !scalarLike(sh) {
-				r.outcome(tag + "/structural-loss:" + sh)
-				return // not a scalar conversion: C04's claim
+				// not a scalar conversion as such (C04 claims the structure), but a value of the boundary
+				// alphabet did not survive: reported here as well, C04 explores a narrower value alphabet
+				r.outcome(tag + "/structural-loss")
+				r.violate("structure-lost-with-boundary-values", sh, "a value built from the boundary sets does not survive conversion: "+detail, w)
+				return
 			}
 			r.outcome(tag + "/inexact")
 			r.violate("inexact", sh, "scalar value does not survive conversion: "+detail, w)
